@@ -5,3 +5,4 @@ typedef int ssize_t;
 long sysconf(int name);
 ssize_t write(int fd, const void* b, size_t n);
 int getpid(void);
+void _exit(int rc) __attribute__((noreturn));
